@@ -184,6 +184,20 @@ def run(ctx, rep):
         elif m < 0.4:
             reply = reply[:rng.randrange(0, 70)]
         cases.append((key, reply))
+    # genuine replies whose nonce shares its first 1..4 bytes (or everything) with the key: the session key then starts with zero bytes
+    for i in range(ctx.n(40, 400)):
+        key = rbytes(rng, 32)
+        nonce = rbytes(rng, 32)
+        k = rng.choice([1, 1, 2, 3, 4, 32])
+        nonce[:k] = key[:k]
+        st, outs = ctx.model.one(55, [key, nonce])
+        cases.append((key, outs[0]))
+        code, val = F.get_local_key(key, outs[0])
+        want = [a ^ b for a, b in zip(key, nonce)]
+        rep.case(("glk-prefix", tuple(key), tuple(nonce)), "get_local_key-shared-prefix")
+        if code != 0 or list(val) != want:
+            rep.fail("oracle", "genuine-handshake-wrong-session-key", {"key": bytes(key).hex(), "nonce": bytes(nonce).hex(), "reply": bytes(outs[0]).hex()},
+                     {"result": [code, bytes(val).hex() if code == 0 else str(val)[:80]], "nonce_xor_key": bytes(want).hex()})
     mo = ctx.model.batch([(44, [k, r]) for k, r in cases])
     for (k, r), m in zip(cases, mo):
         rep.case(("glk", tuple(k), tuple(r)), "get_local_key")
